@@ -68,8 +68,10 @@ String TextFile::readLine(char newline)
 		return s;
 	while (1)
 	{
-		char c = read<char>();
-		if (end() || c == newline)
+		char c;
+		if (read(&c, 1) < 1) // the end of the file, or a read that fails without reaching it
+			break;
+		if (c == newline)
 			break;
 		s << c;
 	}
